@@ -151,7 +151,13 @@ def wall_directed():
     # the resume itself can arm the timer), and a further resume from the other side changes nothing
     mixed = [{"kind": "c16.wall", "limit": 50, "pause_ms": 250, "horizon": 1200,
               "ops": [{"t": 50, "op": "add", "id": "a", "delay": 450}, {"t": 150, "op": sus}, {"t": 250, "op": res}] + ([{"t": 350, "op": "bresume" if res == "resume" else "resume"}] if again else [])}
-             for (sus, res, again) in (("bsuspend", "resume", True), ("suspend", "bresume", True), ("bsuspend", "resume", False))]
+             for (sus, res, again) in (("bsuspend", "resume", True), ("suspend", "bresume", True), ("bsuspend", "resume", False), ("suspend", "bresume", False),
+                                       ("suspend", "resume", False), ("bsuspend", "bresume", False))]
+    # a broadcast command that repeats the broadcaster's own state is still a command to every instance: a broadcast resume wakes an
+    # instance that was suspended locally, twice in a row, and after a broadcast suspend/resume pair
+    mixed += [{"kind": "c16.wall", "limit": 50, "pause_ms": 250, "horizon": 1300,
+               "ops": [{"t": 50, "op": "add", "id": "a", "delay": 650}] + [{"t": 150 + 100 * i, "op": o} for i, o in enumerate(seq)]}
+              for seq in (("bresume", "suspend", "bresume"), ("bsuspend", "bresume", "suspend", "bresume"), ("suspend", "bresume", "suspend", "bresume"))]
     return [wall_inflight(k) for k in ("rem", "add1", "addr")] + [failing, wall_remhead(), wall_remhead(50, 250, 50, later=True)] + mixed
 
 
